@@ -4,6 +4,9 @@
 // the property on the implementation's own output (finite values, round trip within 1e-9 degrees,
 // equal-area / conformal / equidistant character by central differences, Web-Mercator range) and
 // writes `FAIL <id> SPEC ...` lines for violations.  A stratified subsample of the cases is flagged
+// History class: one projection VALUE is configured as A, used, reconfigured (every non-empty subset
+// of its setters, both orders) towards B and must then be bit-identical to a NEW value configured
+// directly (Forward/Reverse are functions of the configuration only) and satisfy the same statement.
 // (field 4 = 1): tools/c19_run.py turns those into Coq goals `Rabs (model - go) <= eps` that tie the
 // real-number model coq/Model/Carto.v to this code.
 package main
@@ -70,31 +73,20 @@ func conicN(kind string, lat1, lat2 float64) float64 {
 	}
 }
 
-func makeProjection(kind string, r *lib.Rng) projection {
+// randomCfg draws a configuration: the constructor argument first (radius or zoom), then the setter
+// arguments in the order of the model's record.  The PRNG consumption is the same for every kind
+// of the same family, whatever the values.
+func randomCfg(kind string, r *lib.Rng) []float64 {
 	R := radii[r.Intn(2)]
 	lon0s := []float64{0, -180, 180, -105, 151, 37.5, -60, 120}
 	switch kind {
 	case "er":
 		lon0 := pick(r, lon0s)
-		lat1 := pick(r, []float64{0, 35, -60, 80, 52.25})
-		p := carto.NewEquirectangular(R)
-		p.SetCentralMeridian(lon0)
-		p.SetStandardParallels(lat1)
-		return projection{name: kind, cfg: []float64{R, lon0, lat1}, scale: R, fwd: p.Forward, rev: p.Reverse, lon0: lon0, lat1: lat1, lat2: -lat1}
-	case "sn":
-		lon0 := pick(r, lon0s)
-		p := carto.NewSinusoidal(R)
-		p.SetCentralMeridian(lon0)
-		return projection{name: kind, cfg: []float64{R, lon0}, scale: R, fwd: p.Forward, rev: p.Reverse, lon0: lon0}
-	case "lc":
-		lon0 := pick(r, lon0s)
-		p := carto.NewLambertCylindricalEqualArea(R)
-		p.SetCentralMeridian(lon0)
-		return projection{name: kind, cfg: []float64{R, lon0}, scale: R, fwd: p.Forward, rev: p.Reverse, lon0: lon0}
+		return []float64{R, lon0, pick(r, []float64{0, 35, -60, 80, 52.25})}
+	case "sn", "lc":
+		return []float64{R, pick(r, lon0s)}
 	case "wm":
-		zoom := r.Intn(31)
-		p := carto.NewWebMercator(zoom)
-		return projection{name: kind, cfg: []float64{float64(zoom)}, scale: math.Ldexp(1, zoom), fwd: p.Forward, rev: p.Reverse}
+		return []float64{float64(r.Intn(31))}
 	case "lcc", "alb", "eqdc":
 		lon0 := pick(r, lon0s)
 		lat0 := pick(r, []float64{0, 40, -40, 75, -75, 23.5, -52})
@@ -105,42 +97,161 @@ func makeProjection(kind string, r *lib.Rng) projection {
 		} else {
 			pp = parallelPairs[r.Intn(len(parallelPairs))]
 		}
-		origin := geom.XY{X: lon0, Y: lat0}
-		pr := projection{name: kind, cfg: []float64{R, lon0, lat0, pp[0], pp[1]}, scale: R, lon0: lon0, lat0: lat0, lat1: pp[0], lat2: pp[1], n: conicN(kind, pp[0], pp[1])}
-		switch kind {
-		case "lcc":
-			p := carto.NewLambertConformalConic(R)
-			p.SetOrigin(origin)
-			p.SetStandardParallels(pp[0], pp[1])
-			pr.fwd, pr.rev = p.Forward, p.Reverse
-		case "alb":
-			p := carto.NewAlbersEqualAreaConic(R)
-			p.SetOrigin(origin)
-			p.SetStandardParallels(pp[0], pp[1])
-			pr.fwd, pr.rev = p.Forward, p.Reverse
-		default:
-			p := carto.NewEquidistantConic(R)
-			p.SetOrigin(origin)
-			p.SetStandardParallels(pp[0], pp[1])
-			pr.fwd, pr.rev = p.Forward, p.Reverse
-		}
-		return pr
+		return []float64{R, lon0, lat0, pp[0], pp[1]}
 	default: // azeq, or
 		lon0 := pick(r, lon0s)
-		lat0 := pick(r, []float64{-90, -60, -34, 0, 45, 80, 90, 12.5})
-		c := geom.XY{X: lon0, Y: lat0}
-		pr := projection{name: kind, cfg: []float64{R, lon0, lat0}, scale: R, lon0: lon0, lat0: lat0}
-		if kind == "azeq" {
-			p := carto.NewAzimuthalEquidistant(R)
-			p.SetCenter(c)
-			pr.fwd, pr.rev = p.Forward, p.Reverse
-		} else {
-			p := carto.NewOrthographic(R)
-			p.SetCenter(c)
-			pr.fwd, pr.rev = p.Forward, p.Reverse
-		}
-		return pr
+		return []float64{R, lon0, pick(r, []float64{-90, -60, -34, 0, 45, 80, 90, 12.5})}
 	}
+}
+
+// setter is one configuration method of a projection value: its name, the configuration fields it
+// writes, and its application with the values taken from a configuration.
+type setter struct {
+	name  string
+	idx   []int
+	apply func(cfg []float64)
+}
+
+// handle is one projection VALUE (one Go object) with its methods.
+type handle struct {
+	fwd, rev func(geom.XY) geom.XY
+	setters  []setter
+}
+
+// build constructs a new projection value with the constructor argument c0 (radius or zoom) and the
+// package defaults for everything else.
+func build(kind string, c0 float64) handle {
+	switch kind {
+	case "er":
+		p := carto.NewEquirectangular(c0)
+		return handle{p.Forward, p.Reverse, []setter{
+			{"SetCentralMeridian", []int{1}, func(c []float64) { p.SetCentralMeridian(c[1]) }},
+			{"SetStandardParallels", []int{2}, func(c []float64) { p.SetStandardParallels(c[2]) }}}}
+	case "sn":
+		p := carto.NewSinusoidal(c0)
+		return handle{p.Forward, p.Reverse, []setter{
+			{"SetCentralMeridian", []int{1}, func(c []float64) { p.SetCentralMeridian(c[1]) }}}}
+	case "lc":
+		p := carto.NewLambertCylindricalEqualArea(c0)
+		return handle{p.Forward, p.Reverse, []setter{
+			{"SetCentralMeridian", []int{1}, func(c []float64) { p.SetCentralMeridian(c[1]) }}}}
+	case "wm":
+		p := carto.NewWebMercator(int(c0))
+		return handle{p.Forward, p.Reverse, nil}
+	case "lcc":
+		p := carto.NewLambertConformalConic(c0)
+		return handle{p.Forward, p.Reverse, []setter{
+			{"SetOrigin", []int{1, 2}, func(c []float64) { p.SetOrigin(geom.XY{X: c[1], Y: c[2]}) }},
+			{"SetStandardParallels", []int{3, 4}, func(c []float64) { p.SetStandardParallels(c[3], c[4]) }}}}
+	case "alb":
+		p := carto.NewAlbersEqualAreaConic(c0)
+		return handle{p.Forward, p.Reverse, []setter{
+			{"SetOrigin", []int{1, 2}, func(c []float64) { p.SetOrigin(geom.XY{X: c[1], Y: c[2]}) }},
+			{"SetStandardParallels", []int{3, 4}, func(c []float64) { p.SetStandardParallels(c[3], c[4]) }}}}
+	case "eqdc":
+		p := carto.NewEquidistantConic(c0)
+		return handle{p.Forward, p.Reverse, []setter{
+			{"SetOrigin", []int{1, 2}, func(c []float64) { p.SetOrigin(geom.XY{X: c[1], Y: c[2]}) }},
+			{"SetStandardParallels", []int{3, 4}, func(c []float64) { p.SetStandardParallels(c[3], c[4]) }}}}
+	case "azeq":
+		p := carto.NewAzimuthalEquidistant(c0)
+		return handle{p.Forward, p.Reverse, []setter{
+			{"SetCenter", []int{1, 2}, func(c []float64) { p.SetCenter(geom.XY{X: c[1], Y: c[2]}) }}}}
+	default:
+		p := carto.NewOrthographic(c0)
+		return handle{p.Forward, p.Reverse, []setter{
+			{"SetCenter", []int{1, 2}, func(c []float64) { p.SetCenter(geom.XY{X: c[1], Y: c[2]}) }}}}
+	}
+}
+
+// describe fills the harness-side description of a configuration (used by the point generators and
+// the checks); it does not touch the implementation.
+func describe(kind string, cfg []float64) projection {
+	pr := projection{name: kind, cfg: cfg, scale: cfg[0]}
+	switch kind {
+	case "er":
+		pr.lon0, pr.lat1, pr.lat2 = cfg[1], cfg[2], -cfg[2]
+	case "sn", "lc":
+		pr.lon0 = cfg[1]
+	case "wm":
+		pr.scale = math.Ldexp(1, int(cfg[0]))
+	case "lcc", "alb", "eqdc":
+		pr.lon0, pr.lat0, pr.lat1, pr.lat2 = cfg[1], cfg[2], cfg[3], cfg[4]
+		pr.n = conicN(kind, cfg[3], cfg[4])
+	default:
+		pr.lon0, pr.lat0 = cfg[1], cfg[2]
+	}
+	return pr
+}
+
+// fresh is a NEW projection value configured directly as cfg (every setter once, in declaration order).
+func fresh(kind string, cfg []float64) projection {
+	h := build(kind, cfg[0])
+	for _, st := range h.setters {
+		st.apply(cfg)
+	}
+	pr := describe(kind, cfg)
+	pr.fwd, pr.rev = h.fwd, h.rev
+	return pr
+}
+
+func makeProjection(kind string, r *lib.Rng) projection { return fresh(kind, randomCfg(kind, r)) }
+
+// withHistory returns ONE projection value that reaches a configuration through a history:
+// configure as A (setters in random order), use it (Forward and Reverse, which is where an
+// implementation could cache configuration-derived values), then reconfigure with a non-empty subset
+// of the setters, in random order, with the values of B.  The configuration it must now behave as is
+// A overwritten by B on the fields of the applied setters.
+func withHistory(kind string, r *lib.Rng) (projection, string) {
+	cfgA := randomCfg(kind, r)
+	cfgB := randomCfg(kind, r)
+	cfgB[0] = cfgA[0] // the constructor argument has no setter
+	h := build(kind, cfgA[0])
+	order := func(n int) []int {
+		o := make([]int, n)
+		for i := range o {
+			o[i] = i
+		}
+		for i := n - 1; i > 0; i-- {
+			j := r.Intn(i + 1)
+			o[i], o[j] = o[j], o[i]
+		}
+		return o
+	}
+	var steps []string
+	for _, k := range order(len(h.setters)) {
+		h.setters[k].apply(cfgA)
+		steps = append(steps, h.setters[k].name+"(A)")
+	}
+	prA := describe(kind, cfgA)
+	for n := r.Range(1, 2); n > 0; n-- {
+		if p0, ok := prA.point([]string{"rand", "grat", "centre"}[r.Intn(3)], r); ok {
+			q := h.fwd(p0)
+			steps = append(steps, "Forward")
+			if r.Bool() {
+				h.rev(q)
+				steps = append(steps, "Reverse")
+			}
+		}
+	}
+	merged := append([]float64(nil), cfgA...)
+	mask := r.Range(1, 1<<len(h.setters)-1) // non-empty subset
+	for _, k := range order(len(h.setters)) {
+		if mask>>k&1 == 1 {
+			h.setters[k].apply(cfgB)
+			steps = append(steps, h.setters[k].name+"(B)")
+			for _, i := range h.setters[k].idx {
+				merged[i] = cfgB[i]
+			}
+		}
+	}
+	pr := describe(kind, merged)
+	pr.fwd, pr.rev = h.fwd, h.rev
+	return pr, fmt.Sprintf("A=%v B=%v: %s", cfgA, cfgB, strings.Join(steps, " -> "))
+}
+
+func sameBits(a, b geom.XY) bool {
+	return math.Float64bits(a.X) == math.Float64bits(b.X) && math.Float64bits(a.Y) == math.Float64bits(b.Y)
 }
 
 // destination point on the unit sphere at angular distance d (radians) and bearing b from (lon0, lat0)
@@ -286,7 +397,7 @@ func main() {
 	defer done()
 	root := lib.NewRng(a.Seed)
 	kinds := []string{"er", "sn", "lc", "wm", "lcc", "alb", "eqdc", "azeq", "or"}
-	perStratum := *goals / (len(kinds) * 5)
+	perStratum := *goals / (len(kinds) * 6)
 	if perStratum < 1 {
 		perStratum = 1
 	}
@@ -304,7 +415,13 @@ func main() {
 		r := root.Fork()
 		kind := kinds[i%len(kinds)]
 		curKind = kind
-		pr := makeProjection(kind, r)
+		var pr projection
+		history := ""
+		if kind != "wm" && r.Chance(1, 6) {
+			pr, history = withHistory(kind, r)
+		} else {
+			pr = makeProjection(kind, r)
+		}
 		var p geom.XY
 		var class string
 		for {
@@ -317,9 +434,24 @@ func main() {
 				break
 			}
 		}
+		pointClass := class
+		if history != "" {
+			class = "hist"
+		}
 		classes[kind+"/"+class]++
 		f := pr.fwd(p)
 		back := pr.rev(f)
+		if history != "" {
+			// Forward/Reverse are functions of the configuration, not of the history of the value:
+			// bit-identical to a new value configured directly, and repeatable
+			want := fresh(kind, pr.cfg)
+			wf := want.fwd(p)
+			wb := want.rev(f)
+			if !sameBits(f, wf) || !sameBits(back, wb) || !sameBits(pr.fwd(p), f) || !sameBits(pr.rev(f), back) {
+				fail(i, "history", fmt.Sprintf("%s(%v) after [%s]: lonlat=(%v,%v) fwd=(%v,%v) rev=(%v,%v); a new value configured directly gives fwd=(%v,%v) rev=(%v,%v)",
+					kind, pr.cfg, history, p.X, p.Y, f.X, f.Y, back.X, back.Y, wf.X, wf.Y, wb.X, wb.Y))
+			}
+		}
 		g := 0
 		key := kind + "/" + class
 		if flagged[key] < perStratum && finite(f) && finite(back) {
@@ -333,6 +465,9 @@ func main() {
 			cfgr[j] = fmt.Sprintf("%v", v)
 		}
 		desc := fmt.Sprintf("%s(%s) lonlat=(%v,%v) fwd=(%v,%v) rev=(%v,%v)", kind, strings.Join(cfgr, ","), p.X, p.Y, f.X, f.Y, back.X, back.Y)
+		if history != "" {
+			desc += " after [" + history + "]"
+		}
 		fmt.Fprintf(w, "%d\t%s\t%s\t%d\t%s\t%s\t%s\t%s\t%s\t%s\t%s\t%s\n", i, kind, class, g,
 			strings.Join(cfgs, ","), hx(p.X), hx(p.Y), hx(f.X), hx(f.Y), hx(back.X), hx(back.Y), desc)
 
@@ -346,11 +481,11 @@ func main() {
 			continue
 		}
 		periodic := kind == "azeq" || kind == "or"
-		atPole := periodic && class == "centre" && math.Abs(pr.lat0) == 90 // longitude is arbitrary at a pole
+		atPole := periodic && pointClass == "centre" && math.Abs(pr.lat0) == 90 // longitude is arbitrary at a pole
 		if (!atPole && lonDiff(back.X, p.X, periodic) > rtTolDeg) || math.Abs(back.Y-p.Y) > rtTolDeg {
 			fail(i, "round_trip", fmt.Sprintf("err=(%.3g,%.3g)deg %s", back.X-p.X, back.Y-p.Y, desc))
 		}
-		if class == "centre" && kind != "wm" && (math.Abs(f.X) > 1e-9*pr.scale || math.Abs(f.Y) > 1e-9*pr.scale) {
+		if pointClass == "centre" && kind != "wm" && (math.Abs(f.X) > 1e-9*pr.scale || math.Abs(f.Y) > 1e-9*pr.scale) {
 			fail(i, "centre_maps_to_origin", desc)
 		}
 		// partial derivatives with respect to longitude and latitude, per radian
@@ -390,7 +525,7 @@ func main() {
 				fail(i, "radial_isometry", fmt.Sprintf("|fwd|/R=%.12g angular distance=%.12g %s", math.Hypot(f.X, f.Y)/pr.scale, want, desc))
 			}
 		}
-		if class == "stdpar" { // standard parallels are true to scale
+		if pointClass == "stdpar" { // standard parallels are true to scale
 			k := math.Sqrt(xl*xl+yl*yl) / cosp
 			if math.Abs(k-1) > charTol {
 				fail(i, "standard_parallel_true_scale", fmt.Sprintf("k=%.9g %s", k, desc))
